@@ -4,17 +4,21 @@ from pipeline import run_pipeline
 
 TIERS = {
     # random runs = 28 configurations (level x sign/encrypt x origin authentication x key length x direction)
-    # x payload lengths 0..67 (runs / 28 lengths are covered, 1904 = all of them once)
-    "quick": dict(mc=[("MC_CryptoKeys_q_a.cfg", 8), ("MC_CryptoKeys_q_b.cfg", 8)], replay_limit=9000,
+    # x payload lengths 0..67 (runs / 28 lengths are covered, 1904 = all of them once); protection of the endpoint
+    # level not under test (same / none / other kind => one or two key materials per writer) is a model dimension
+    # (constant Others) in the TLC part and drawn per run in the random part
+    "quick": dict(mc=[("MC_CryptoKeys_q_a.cfg", 8), ("MC_CryptoKeys_q_b.cfg", 8)], replay_limit=24000,
                   random=dict(runs=1904, events=0)),
-    "thorough": dict(mc=[("MC_CryptoKeys_t_a.cfg", 12), ("MC_CryptoKeys_t_b.cfg", 12)], replay_limit=60000,
+    "thorough": dict(mc=[("MC_CryptoKeys_t_a.cfg", 12), ("MC_CryptoKeys_t_b.cfg", 12)], replay_limit=150000,
                      random=dict(runs=19040, events=0)),
 }
 ASSUME = [
     "AES-GCM / GMAC / HMAC-SHA256 themselves are trusted (ring); the model is symbolic: key material is identified by who generated it and for whom",
     "one endpoint per participant, three plugin instances, every registration call at most once per pair (constants in spec/MC_CryptoKeys_*.cfg)",
     "tokens are handed from one plugin instance to the other as CryptoToken values (the volatile secure channel that carries them is not part of C16)",
-    "a tamper class is refined by every byte (xor 0x01, 0x80, 0xFF) of the field, every bit of MACs; multi-byte alterations only as header / MAC / body swaps between two encodings of the same plaintext",
+    "a tamper class is refined by every byte (xor 0x01, 0x80, 0xFF) of the field, every bit of MACs; multi-byte alterations only as header / MAC / body swaps between two encodings of the same plaintext, "
+    "the header key id overwritten with the id of another existing key (sender's sibling-level key, sender's other entity level key, receiver-specific key, another sender's key, the receiver's own key, zero), "
+    "and the key ids of two receiver-specific MAC entries exchanged; one field altered at a time (no combined key id + kind alteration)",
     "submessage headers of SEC_PREFIX / SEC_BODY / SEC_POSTFIX (framing, not protected by design) are not altered; altering ANOTHER receiver's MAC is left unconstrained",
     "random 4-byte key ids of different plugins are assumed distinct (collision probability 2^-32 per pair)",
 ]
